@@ -252,6 +252,11 @@ func (b *TB) Eq(x, y *Term) *Term {
 	if x.isInf() || y.isInf() {
 		return b.False // the other side is finite by the numeric model
 	}
+	if x.sort == SReal {
+		if d := b.RSub(x, y); d.op == "rconst" {
+			return b.Bool(d.rat.Sign() == 0)
+		}
+	}
 	x, y = ord2(x, y)
 	return b.app("eq", SBool, x, y)
 }
@@ -372,34 +377,79 @@ var ratOne = big.NewRat(1, 1)
 
 func isRat(t *Term, r *big.Rat) bool { return t.op == "rconst" && t.rat.Cmp(r) == 0 }
 
+// splitCoef views t as coef * core (core == nil for a pure constant).
+func (b *TB) splitCoef(t *Term) (*big.Rat, *Term) {
+	if t.op == "rconst" {
+		return t.rat, nil
+	}
+	if t.op == "rmul" && t.args[0].op == "rconst" {
+		rest := t.args[1:]
+		if len(rest) == 1 {
+			return t.args[0].rat, rest[0]
+		}
+		return t.args[0].rat, b.app("rmul", SReal, rest...)
+	}
+	return ratOne, t
+}
+
+// RAdd builds a flattened, sorted sum with like terms merged (no distribution over products).
 func (b *TB) RAdd(x, y *Term) *Term {
-	if x.op == "rconst" && y.op == "rconst" {
-		return b.Rat(new(big.Rat).Add(x.rat, y.rat))
+	if x.isInf() || y.isInf() {
+		return b.app("radd", SReal, x, y)
 	}
-	if isRat(x, ratZero) {
-		return y
+	konst := new(big.Rat)
+	coefs := map[int]*big.Rat{}
+	cores := map[int]*Term{}
+	var order []int
+	var collect func(t *Term, scale *big.Rat)
+	collect = func(t *Term, scale *big.Rat) {
+		if t.op == "radd" {
+			for _, a := range t.args {
+				collect(a, scale)
+			}
+			return
+		}
+		c, core := b.splitCoef(t)
+		c = new(big.Rat).Mul(c, scale)
+		if core == nil {
+			konst.Add(konst, c)
+			return
+		}
+		if old, ok := coefs[core.id]; ok {
+			old.Add(old, c)
+		} else {
+			coefs[core.id] = c
+			cores[core.id] = core
+			order = append(order, core.id)
+		}
 	}
-	if isRat(y, ratZero) {
-		return x
+	collect(x, ratOne)
+	collect(y, ratOne)
+	sort.Ints(order)
+	var args []*Term
+	if konst.Sign() != 0 {
+		args = append(args, b.Rat(konst))
 	}
-	x, y = ord2(x, y)
-	return b.app("radd", SReal, x, y)
+	for _, id := range order {
+		if coefs[id].Sign() == 0 {
+			continue
+		}
+		args = append(args, b.RMul(b.Rat(coefs[id]), cores[id]))
+	}
+	switch len(args) {
+	case 0:
+		return b.Rat(ratZero)
+	case 1:
+		return args[0]
+	}
+	return b.app("radd", SReal, args...)
 }
 
 func (b *TB) RSub(x, y *Term) *Term {
-	if x.op == "rconst" && y.op == "rconst" {
-		return b.Rat(new(big.Rat).Sub(x.rat, y.rat))
-	}
-	if isRat(y, ratZero) {
-		return x
-	}
 	if x == y {
 		return b.Rat(ratZero)
 	}
-	if isRat(x, ratZero) {
-		return b.RNeg(y)
-	}
-	return b.app("rsub", SReal, x, y)
+	return b.RAdd(x, b.RNeg(y))
 }
 
 func (b *TB) RNeg(x *Term) *Term {
@@ -409,45 +459,113 @@ func (b *TB) RNeg(x *Term) *Term {
 	return b.RMul(b.RatI(-1, 1), x)
 }
 
+// RMul builds a flattened, sorted product with the constant coefficient first.
 func (b *TB) RMul(x, y *Term) *Term {
-	if x.op == "rconst" && y.op == "rconst" {
-		return b.Rat(new(big.Rat).Mul(x.rat, y.rat))
+	if x.isInf() || y.isInf() {
+		return b.app("rmul", SReal, x, y)
 	}
-	for k := 0; k < 2; k++ {
-		c, o := x, y
-		if k == 1 {
-			c, o = y, x
-		}
-		if c.op == "rconst" {
-			if c.rat.Sign() == 0 {
-				return c
+	coef := big.NewRat(1, 1)
+	var fs []*Term
+	var collect func(t *Term)
+	collect = func(t *Term) {
+		switch t.op {
+		case "rconst":
+			coef.Mul(coef, t.rat)
+		case "rmul":
+			for _, a := range t.args {
+				collect(a)
 			}
-			if c.rat.Cmp(ratOne) == 0 {
-				return o
-			}
-			// c1 * (c2 * z) -> (c1*c2) * z
-			if o.op == "rmul" {
-				for j := 0; j < 2; j++ {
-					if o.args[j].op == "rconst" {
-						return b.RMul(b.Rat(new(big.Rat).Mul(c.rat, o.args[j].rat)), o.args[1-j])
-					}
-				}
-			}
+		default:
+			fs = append(fs, t)
 		}
 	}
-	x, y = ord2(x, y)
-	return b.app("rmul", SReal, x, y)
+	collect(x)
+	collect(y)
+	if coef.Sign() == 0 {
+		return b.Rat(ratZero)
+	}
+	if len(fs) == 0 {
+		return b.Rat(coef)
+	}
+	// cancel f * (1/f) pairs: sound wherever the quotient is defined (tracked separately)
+	fs = b.cancelInverses(fs)
+	if len(fs) == 0 {
+		return b.Rat(coef)
+	}
+	sort.Slice(fs, func(i, j int) bool { return fs[i].id < fs[j].id })
+	if coef.Cmp(ratOne) == 0 {
+		if len(fs) == 1 {
+			return fs[0]
+		}
+		return b.app("rmul", SReal, fs...)
+	}
+	// a constant times a sum distributes (keeps sums flat: c*(a+b) = c*a + c*b)
+	if len(fs) == 1 && fs[0].op == "radd" {
+		acc := b.Rat(ratZero)
+		c := b.Rat(coef)
+		for _, a := range fs[0].args {
+			acc = b.RAdd(acc, b.RMul(c, a))
+		}
+		return acc
+	}
+	args := append([]*Term{b.Rat(coef)}, fs...)
+	return b.app("rmul", SReal, args...)
+}
+
+func (b *TB) cancelInverses(fs []*Term) []*Term {
+	hasInv := false
+	for _, f := range fs {
+		if f.op == "rinv" {
+			hasInv = true
+			break
+		}
+	}
+	if !hasInv {
+		return fs
+	}
+	used := make([]bool, len(fs))
+	for i, f := range fs {
+		if f.op != "rinv" || used[i] {
+			continue
+		}
+		for j, g := range fs {
+			if !used[j] && j != i && g == f.args[0] {
+				used[i], used[j] = true, true
+				break
+			}
+		}
+	}
+	var out []*Term
+	for i, f := range fs {
+		if !used[i] {
+			out = append(out, f)
+		}
+	}
+	return out
+}
+
+// RInv is the reciprocal; printed as (/ 1.0 y).  Definedness (y != 0) is tracked by the caller.
+func (b *TB) RInv(y *Term) *Term {
+	switch y.op {
+	case "rconst":
+		if y.rat.Sign() != 0 {
+			return b.Rat(new(big.Rat).Inv(y.rat))
+		}
+	case "rinv":
+		return y.args[0]
+	case "rmul":
+		acc := b.Rat(ratOne)
+		for _, a := range y.args {
+			acc = b.RMul(acc, b.RInv(a))
+		}
+		return acc
+	}
+	return b.app("rinv", SReal, y)
 }
 
 // RDiv value only; definedness (y != 0) is tracked by the caller.
 func (b *TB) RDiv(x, y *Term) *Term {
-	if y.op == "rconst" && y.rat.Sign() != 0 {
-		return b.RMul(x, b.Rat(new(big.Rat).Inv(y.rat)))
-	}
-	if isRat(x, ratZero) {
-		return x
-	}
-	return b.app("rdiv", SReal, x, y)
+	return b.RMul(x, b.RInv(y))
 }
 
 func (b *TB) RLt(x, y *Term) *Term {
@@ -511,7 +629,7 @@ func (b *TB) ToIntTrunc(x *Term) *Term {
 
 var opSMT = map[string]string{
 	"iadd": "+", "isub": "-", "imul": "*", "ilt": "<", "ile": "<=",
-	"radd": "+", "rsub": "-", "rmul": "*", "rdiv": "/", "rlt": "<", "rle": "<=",
+	"radd": "+", "rsub": "-", "rmul": "*", "rdiv": "/", "rinv": "/1", "rlt": "<", "rle": "<=",
 	"eq": "=", "not": "not", "and": "and", "or": "or", "ite": "ite",
 	"to_real": "to_real", "to_int": "to_int",
 }
@@ -590,6 +708,9 @@ func refSMT(t *Term, bv bool) string {
 
 func bodySMT(t *Term, bv bool) string {
 	var sb strings.Builder
+	if t.op == "rinv" {
+		return "(/ 1.0 " + refSMT(t.args[0], bv) + ")"
+	}
 	sb.WriteByte('(')
 	if t.op == "uf" {
 		sb.WriteString(t.name)
